@@ -308,6 +308,14 @@ func (h *ctlRun) compare(what string) (string, error) {
 		h.fail("propfail", "store-unreadable", "reading the state back failed: "+err.Error(), err.Error(), "")
 		return "", nil
 	}
+	if h.c.prop == "C17" && !h.failed {
+		// whatever happened on the way (faults included): a frame that is handed to the gateway is timed by
+		// what it is
+		if line, want := delayOracle(stateSections(impl)["emitted"]); line != "" {
+			h.fail("propfail", "rx1-delay-not-by-frame-type", "C17: a frame was handed to the gateway with the receive-window delay of another kind of frame (join-accept: five seconds after the uplink, data: one second), after "+what, line, want)
+			return impl, nil
+		}
+	}
 	if h.search {
 		return impl, nil
 	}
@@ -438,12 +446,12 @@ func runPipeCtl(c *ctx) error {
 		}
 		return false
 	}
-	if want("C10") {
+	if want("C10", "C17") {
 		if err := ctlFaults(c, file); err != nil {
 			return err
 		}
 	}
-	if want("C03", "C07", "C09", "C10") {
+	if want("C03", "C07", "C08", "C09", "C10") {
 		if err := ctlRaces(c, file); err != nil {
 			return err
 		}
